@@ -38,6 +38,14 @@ Proof.
   split; [exact H1|]. repeat split; try exact H3; vm_compute; reflexivity.
 Qed.
 
+(* ---------------------------------------------------------------- lowering: what does hold *)
+(* for EVERY program (no size bound, any nesting): every lowered function has an entry block and
+   its block ids are pairwise distinct.  (One terminator per block holds by construction of
+   AirBlock / the model's block type.) *)
+Theorem C17_lower_entry_and_unique_ids :
+  forall p f, In f (lower p) -> has_entry (f_blocks f) = true /\ unique_ids (f_blocks f) = true.
+Proof. exact lower_entry_and_unique_ids. Qed.
+
 (* ---------------------------------------------------------------- monomorphisation: refutations *)
 (* a generic function called at two types: whatever the HashMap order, one call site is redirected
    to the instance made for the other type *)
